@@ -1058,6 +1058,7 @@ func nsRunCase(t *testing.T, st *vk.Stats, c nsCase) nsOutcome {
 		lab(x.conflictingLocks, "conflicting-locks")
 		lab(x.cnt["op:lc"] > 0, "lc-macro")
 		lab(x.cnt["op:iso"] > 0, "iso-macro")
+		lab(x.cnt["res:ph:Accepted"] > 0 && x.cnt["next-height-ph"] > 0, "next-height-proposal-offered")
 		lab(x.cnt["split:byz-proposer"] > 0, "split-byz-proposer")
 		lab(x.faultReorder, "fault:reorder-across-rounds")
 		lab(x.faultTimeout, "fault:timeout")
@@ -1101,7 +1102,7 @@ func nsRun(t *testing.T, ft vk.TB, st *vk.Stats, c nsCase) {
 	})
 	st.Case(out.nontriv, vk.FP(c), out.labels...)
 	for k, v := range out.cnt {
-		if strings.HasPrefix(k, "held:") || strings.HasPrefix(k, "reoffer:") || strings.HasPrefix(k, "res:") || strings.HasPrefix(k, "split:") || strings.HasPrefix(k, "op:") || strings.HasPrefix(k, "byz:") || strings.HasPrefix(k, "errlog:") {
+		if strings.HasPrefix(k, "held:") || strings.HasPrefix(k, "reoffer:") || strings.HasPrefix(k, "res:") || strings.HasPrefix(k, "split:") || strings.HasPrefix(k, "op:") || strings.HasPrefix(k, "byz:") || strings.HasPrefix(k, "errlog:") || k == "next-height-ph" {
 			st.LabelN("n:"+k, v)
 		}
 	}
